@@ -621,7 +621,13 @@ class SQLDataStore(datastore.DataStore):
 
       # Now, we update one Trial at a time:
       for trial_id, md_list in split_metadata.items():
-        t_resource = s_resource.trial_resource(trial_id)
+        try:
+          t_resource = s_resource.trial_resource(trial_id)
+        except ValueError:
+          # Not a trial id at all: undo the pending writes, like for a
+          # missing trial below.
+          self._connection.rollback()
+          raise
         trial_name = t_resource.name
 
         # Obtain original trial.
